@@ -213,6 +213,67 @@ def gen_mixed_batch(pyrng, nmax=10):
                 v=enc(np.stack(vs, 0)), max_iters=int(g.integers(r + 1, n)), tol=float(g.choice([1e-7, 1e-6, 1e-3])), entry="lanczos")
 
 
+def gen_exact_case(pyrng):
+    """Hermitian inputs on which every quantity of the run up to the exhaustion of the Krylov space is exactly representable in
+    binary64 (small integers / dyadic numbers, canonical or +-1/2-pattern start vectors, involutions, 2x2 blocks, 1x1): beta is
+    EXACTLY 0.0 at exhaustion and the stopping comparison sits exactly on its boundary for tol in {0, beta_1/||A q_1||, 1};
+    max_iters in {1, grade, grade+1, n-1, n, n+1, n+3}, n = 1"""
+    g = np.random.default_rng(pyrng.getrandbits(64))
+    fam = str(g.choice(["identity", "scaledI", "diag_e", "diag4", "involution", "block2", "block2c", "one"]))
+    p2 = lambda: float(g.choice([1.0, -1.0, 2.0, -0.5, 4.0]))
+    cplx = False
+    n = int(g.integers(2, 9))
+    c = dict(start="exact", family=fam, style="exact")
+    if fam in ("identity", "scaledI"):
+        n = int(g.choice([1, 2, 4, 5, 8]))
+        k4 = 4 if (n >= 4 and g.random() < 0.5) else 1
+        v = np.zeros(n); idx = g.choice(n, size=k4, replace=False); v[idx] = g.choice([-1.0, 1.0], k4) * abs(p2())
+        if fam == "identity":
+            c.update(kind="identity", parts=[])
+        else:
+            c.update(kind="scaled", parts=[enc(np.eye(n)), float(g.choice([2.0, -3.0, 0.5]))])
+        grade = 1
+    elif fam == "diag_e":
+        d = g.integers(-4, 5, n).astype(float)
+        v = np.zeros(n); v[int(g.integers(0, n))] = p2()
+        c.update(kind="diag", parts=[enc(d)]); grade = 1
+    elif fam == "diag4":
+        n = int(g.integers(4, 9))
+        m_, a_ = [(3.0, 4.0), (0.0, 2.0), (0.0, 1.0), (-3.0, 4.0), (1.0, 2.0)][int(g.integers(0, 5))]
+        d = g.integers(-4, 5, n).astype(float)
+        idx = g.choice(n, size=4, replace=False)
+        d[idx] = [m_ + a_, m_ - a_, m_ + a_, m_ - a_]
+        v = np.zeros(n); v[idx] = abs(p2())
+        c.update(kind="diag", parts=[enc(d)]); grade = 2
+    elif fam == "involution":
+        perm = np.arange(n); pairs = g.permutation(n)
+        for i in range(0, n - 1, 2):
+            if g.random() < 0.7:
+                a, b = pairs[i], pairs[i + 1]; perm[a], perm[b] = b, a
+        j0 = int(g.integers(0, n))
+        v = np.zeros(n); v[j0] = p2()
+        sc = float(g.choice([1.0, 2.0, -0.5]))
+        c.update(kind="dense", parts=[enc(sc * np.eye(n)[perm])]); grade = 1 if perm[j0] == j0 else 2
+    elif fam in ("block2", "block2c"):
+        cplx = fam == "block2c"
+        m_, a_ = [(3.0, 4.0), (0.0, 2.0), (-3.0, 4.0), (1.0, 2.0)][int(g.integers(0, 4))]
+        S = np.diag(g.integers(-4, 5, n).astype(float)).astype(complex)
+        off = a_ * (1j if cplx else 1.0)
+        S[0, 0] = S[1, 1] = m_; S[0, 1] = off; S[1, 0] = np.conj(off)
+        v = np.zeros(n); v[0] = p2()
+        c.update(kind="dense", parts=[enc(S)]); grade = 2
+    else:
+        n = 1
+        v = np.array([p2()]); c.update(kind="dense", parts=[enc(np.array([[float(g.integers(-3, 4))]]))]); grade = 1
+    tols = [0.0, 0.0, 0.0, 1e-300, 1e-7, 1.0, 0.8, 0.5]
+    mis = [1, 2, max(1, grade - 1), grade, grade + 1, max(1, n - 1), n, n + 1, n + 3]
+    batch = 0 if g.random() < 0.8 else 2
+    V = np.stack([v, -2.0 * np.asarray(v)][:max(batch, 1)], 0)
+    c.update(cplx=cplx, n=n, batch=batch, grades=[grade] * max(batch, 1), v=enc(V), max_iters=int(g.choice(mis)), tol=float(g.choice(tols)),
+             entry=str(g.choice(["lanczos", "lanczos", "Lanczos()", "lanczos_eigs"])) if batch == 0 else "lanczos")
+    return c
+
+
 def coq_elem_cases(c, obs, alias_flag_present, rfix=False):
     """one single-start Coq case per batch element (element b of the batched call against the run on v_b alone)"""
     S = dense_of(c)
